@@ -8,7 +8,17 @@
 
    The leaf accumulators are machine words of the widths the source declares (regenerated:
    Gen/TabOctree.v); `+=` on them is checked, as in a debug build (Panic on overflow).
-   Not modelled: OcTreeLeaf::index / OcTree::find (not used by quantisation). *)
+   Not modelled: OcTreeLeaf::index / OcTree::find (not used by quantisation).
+
+   Panic sites are identifiers, not source lines (lines move with every commit):
+     13001 KDTree::find on an empty arena (`self.nodes.len() - 1`)      [Image/KDTree.v]
+     13002 OcTreeLeaf::to_rgba with color_count = 0 (division by zero)
+     13003 insert_rec: `Tree(_) => unreachable!()`
+     13004 insert: expect("OcTreePath can not be empty")
+     13005 prune_rec: `Empty => unreachable!(..)`        13006 prune: `Empty => unreachable!(..)`
+     13007 from_image: palette_size = 0 (division by zero)                [Image/Quantize.v]
+     13008 `leaf += rgba` overflow                       13009 `leaf += leaf` overflow
+     12001 sixel strip: `column - offset` underflow                       [Image/Sixel.v] *)
 From Coq Require Import List NArith Bool.
 From SNT Require Import Base.Outcome Image.KDTree Gen.TabOctree.
 Import ListNotations.
@@ -30,15 +40,15 @@ Definition leaf_fits (l : leaf) : bool :=
   (l_r l <? leaf_acc_limit) && (l_g l <? leaf_acc_limit) && (l_b l <? leaf_acc_limit)
   && (l_n l <? leaf_count_limit).
 
-(* `leaf += rgba` (image.rs:1129) and `leaf += leaf` (image.rs:1138): overflow panics *)
+(* `leaf += rgba` and `leaf += leaf` (impl AddAssign for OcTreeLeaf): overflow panics *)
 Definition leaf_add_chk (l : leaf) (c : rgb) : outcome leaf :=
-  let l' := leaf_add l c in if leaf_fits l' then Ok l' else Panic 1129.
+  let l' := leaf_add l c in if leaf_fits l' then Ok l' else Panic 13008.
 Definition leaf_join_chk (l m : leaf) : outcome leaf :=
-  let l' := leaf_join l m in if leaf_fits l' then Ok l' else Panic 1138.
+  let l' := leaf_join l m in if leaf_fits l' then Ok l' else Panic 13009.
 
 (* OcTreeLeaf::to_rgba: integer division, `as u8`; color_count = 0 divides by zero *)
 Definition leaf_rgb (l : leaf) : outcome rgb :=
-  if l_n l =? 0 then Panic 1104
+  if l_n l =? 0 then Panic 13002
   else Ok ((l_r l / l_n l) mod 256, (l_g l / l_n l) mod 256, (l_b l / l_n l) mod 256).
 
 Record info := mkInfo { i_leaves : N; i_colors : N; i_min : option N }.
@@ -147,13 +157,13 @@ Fixpoint insert_rec (path : list nat) (c : rgb) (n : node) : outcome node :=
       match n with
       | Empty => Ok (Leaf (leaf_of c))
       | Leaf l => let* l' := leaf_add_chk l c in Ok (Leaf l')
-      | Tree _ _ _ => Panic 1336                     (* unreachable!() *)
+      | Tree _ _ _ => Panic 13003                     (* unreachable!() *)
       end
   end.
 
 Definition oc_insert (t : octree) (c : rgb) : outcome octree :=
   match path_packed c with          (* OcTreePath::new(color), as coded; = path_of c (OctreePath.path_packed_eq) *)
-  | [] => Panic 1342                                  (* expect("OcTreePath can not be empty") *)
+  | [] => Panic 13004                                  (* expect("OcTreePath can not be empty") *)
   | k :: rest =>
       let* child := insert_rec rest c (nth k (o_children t) Empty) in
       let ch' := set_at k child (o_children t) in
@@ -212,7 +222,7 @@ Fixpoint prune_rec (n : node) : outcome node :=
       | None => Ok (Leaf rm)
       | Some k =>
           match nth k ch Empty with
-          | Empty => Panic 1373                        (* unreachable!("agrmin_color_count found and empty node") *)
+          | Empty => Panic 13005                        (* unreachable!("agrmin_color_count found and empty node") *)
           | Leaf l =>
               (* tree.removed += leaf; NO node_update: info stays as it was *)
               let* rm' := leaf_join_chk rm l in
@@ -238,7 +248,7 @@ Definition oc_prune (t : octree) : outcome octree :=
   | None => Ok t
   | Some k =>
       match nth k ch Empty with
-      | Empty => Panic 1401                            (* unreachable!(..) *)
+      | Empty => Panic 13006                            (* unreachable!(..) *)
       | Leaf l =>
           (* self.removed += leaf; the root's info is NOT recomputed *)
           let* rm' := leaf_join_chk (o_removed t) l in
